@@ -284,9 +284,14 @@ class TranslatorC(Translator):
                         ">>": "rshift",
                         "a>>": "a_rshift"
                     }
-                    out = "bignum_%s(%s, bignum_to_uint64(%s))" % (
-                        op[expr.op], arg0, arg1
-                    )
+                    if expr.op == "a>>":
+                        out = "bignum_a_rshift(%s, %d, bignum_to_uint64(%s))" % (
+                            arg0, expr.size, arg1
+                        )
+                    else:
+                        out = "bignum_%s(%s, bignum_to_uint64(%s))" % (
+                            op[expr.op], arg0, arg1
+                        )
                     out = "bignum_mask(%s, %d)"% (out, expr.size)
                 return out
 
